@@ -18,55 +18,71 @@ func runRefined(s *core.Shard, offset int) {
 		id       string
 		implicit string // attribute lines of the first layer, defaults implicit (indented for a service)
 		explicit string // the same, defaults spelled out
-		layer    string // attribute lines of the refining layer (identical on both sides)
+		layer    string // attribute lines of the refining layer (identical on both sides unless layerExp is set)
+		layerExp string // the refining layer with its own defaults spelled out
 	}
 	depFull := "{condition: service_started, required: true}"
 	cases := []rc{
 		{"depends_on-short-list-one-refined",
 			"    depends_on: [db, cache]\n",
 			"    depends_on:\n      db: " + depFull + "\n      cache: " + depFull + "\n",
-			"    depends_on:\n      db: {condition: service_healthy, required: false, restart: true}\n"},
+			"    depends_on:\n      db: {condition: service_healthy, required: false, restart: true}\n", ""},
 		{"depends_on-short-list-other-refined",
 			"    depends_on:\n      - cache\n      - db\n      - queue\n",
 			"    depends_on:\n      db: " + depFull + "\n      cache: " + depFull + "\n      queue: " + depFull + "\n",
-			"    depends_on:\n      queue: {condition: service_completed_successfully, required: false}\n"},
+			"    depends_on:\n      queue: {condition: service_completed_successfully, required: false}\n", ""},
 		{"port-long-without-protocol-then-short",
 			"    ports:\n      - {target: 80, published: \"8080\"}\n",
 			"    ports:\n      - {target: 80, published: \"8080\", protocol: tcp, mode: ingress}\n",
-			"    ports:\n      - \"8080:80\"\n"},
+			"    ports:\n      - \"8080:80\"\n", ""},
 		{"port-long-without-protocol-then-long-with",
 			"    ports:\n      - {target: 80, published: \"8080\"}\n      - {target: 53, published: \"53\", protocol: udp}\n",
 			"    ports:\n      - {target: 80, published: \"8080\", protocol: tcp, mode: ingress}\n      - {target: 53, published: \"53\", protocol: udp, mode: ingress}\n",
-			"    ports:\n      - {target: 80, published: \"8080\", protocol: tcp, name: web}\n"},
+			"    ports:\n      - {target: 80, published: \"8080\", protocol: tcp, name: web}\n", ""},
 		{"port-short-then-long-without-protocol",
 			"    ports:\n      - \"8080:80\"\n",
 			"    ports:\n      - {target: 80, published: \"8080\", protocol: tcp, mode: ingress}\n",
-			"    ports:\n      - {target: 80, published: \"8080\", name: web, app_protocol: http}\n"},
+			"    ports:\n      - {target: 80, published: \"8080\", name: web, app_protocol: http}\n", ""},
 		{"port-long-with-protocol-then-long-without",
 			"    ports:\n      - {target: 80, published: \"8080\", protocol: tcp}\n",
 			"    ports:\n      - {target: 80, published: \"8080\", protocol: tcp, mode: ingress}\n",
-			"    ports:\n      - {target: 80, published: \"8080\", name: web}\n"},
+			"    ports:\n      - {target: 80, published: \"8080\", name: web}\n", ""},
+		{"build-short-form-over-a-dockerfile",
+			"    build: {context: ./dir, dockerfile: Dockerfile.dev}\n", "    build: {context: ./dir, dockerfile: Dockerfile.dev}\n",
+			"    build: ./dir\n", "    build: {context: ./dir}\n"},
+		{"build-short-form-over-an-inline-dockerfile",
+			"    build: {context: ./dir, dockerfile_inline: \"FROM scratch\"}\n", "    build: {context: ./dir, dockerfile_inline: \"FROM scratch\"}\n",
+			"    build: ./other\n", "    build: {context: ./other}\n"},
+		{"build-short-form-refined-with-a-dockerfile",
+			"    build: ./dir\n", "    build: {context: ./dir}\n",
+			"    build: {dockerfile: Dockerfile.dev}\n", ""},
+		{"build-short-form-refined-with-an-inline-dockerfile",
+			"    build: ./dir\n", "    build: {context: ./dir}\n",
+			"    build: {dockerfile_inline: \"FROM scratch\"}\n", ""},
 	}
 	carriers := []string{"files", "documents", "extends"}
 	others := "  db:\n    image: img\n  cache:\n    image: img\n  queue:\n    image: img\n"
 	mk := func(c rc, carrier string, explicit bool) *ld.Case {
-		first := c.implicit
+		first, layer := c.implicit, c.layer
 		// a bystander with the same kind of attribute, never refined
 		by := "  t:\n    image: img\n    depends_on: [db]\n    ports: [\"9090:90\"]\n"
 		if explicit {
 			first = c.explicit
+			if c.layerExp != "" {
+				layer = c.layerExp
+			}
 			by = "  t:\n    image: img\n    depends_on:\n      db: " + depFull + "\n    ports:\n      - {target: 90, published: \"9090\", protocol: tcp, mode: ingress}\n"
 		}
 		lc := &ld.Case{Files: map[string]string{}, ComposeFiles: []string{"compose.yaml"}}
 		switch carrier {
 		case "files":
 			lc.Files["compose.yaml"] = "services:\n  s:\n    image: img\n" + first + by + others
-			lc.Files["override.yaml"] = "services:\n  s:\n" + c.layer
+			lc.Files["override.yaml"] = "services:\n  s:\n" + layer
 			lc.ComposeFiles = []string{"compose.yaml", "override.yaml"}
 		case "documents":
-			lc.Files["compose.yaml"] = "services:\n  s:\n    image: img\n" + first + by + others + "---\nservices:\n  s:\n" + c.layer
+			lc.Files["compose.yaml"] = "services:\n  s:\n    image: img\n" + first + by + others + "---\nservices:\n  s:\n" + layer
 		default:
-			lc.Files["compose.yaml"] = "services:\n  s_base:\n    image: img\n" + first + "  s:\n    extends: {service: s_base}\n" + c.layer + by + others
+			lc.Files["compose.yaml"] = "services:\n  s_base:\n    image: img\n" + first + "  s:\n    extends: {service: s_base}\n" + layer + by + others
 		}
 		return lc
 	}
